@@ -193,7 +193,7 @@ def script_query(propset, script, n, D, root, mode=1, J=None, checks="func", tim
             "SCRIPT_OPS": ",".join(str(o) for o in ops), "SLEN": len(ops)}
     defs.update(extra or {})
     srcs = ("parser", "writer")
-    return Query(name, "h_script.c", defines=defs, sources=srcs, unwindset=uw, unwind=max(n + 3, 10), checks=checks,
+    return Query(name, "h_script.c", defines=defs, sources=srcs, unwindset=uw, unwind=max(n + 3, 10, len(ops) + 2), checks=checks,
                  timeout=timeout, mem_gb=min(0.8 + 0.16 * nloops * j, 12), unwind_assert=full,
                  tags={"n": n, "D": D, "root": "object" if root == 1 else "array", "script": "-".join(script),
                        "per_call_token_cap": None if full else J, "family": "H-SCRIPT", "mode": {1: "valid-doc/ref-driven", 2: "arbitrary-bytes/parser-driven", 3: "arbitrary-bytes/unconditional"}[mode]},
@@ -986,11 +986,25 @@ def plan_C16(tier):
     # writer: the only loops are the 8-iteration pack loop and memmove
     for fn in (6, 7, 8):
         qs.append(writer_query(4, 1, 12, k=1, wfn=fn))
+    # API-only: per call token count vs cursor movement along traversals and lookups on shapes
+    from . import shapes
+    from .shapes import Node
+    for root in (1, 2):
+        nodes = shapes.chain_shapes(root, 4, True) + shapes.gen_shapes(root, 5 if tier == "quick" else 7, ("T", "S1"), 3)
+        qs += shape_variant_queries(16, root, 0, variants=("full", "skip", "leave", "raw") if tier != "quick" else ("full", "skip"),
+                                    nodes=nodes, witness_every=8)
+    lk = [Node("O", [Node("O", [Node("T"), Node("T")], [0, 1]), Node("T")], [1, 1]), Node("O", [Node("A", [Node("T"), Node("T")], []), Node("T")], [1, 1]),
+          Node("O", [Node("T"), Node("O", [Node("T")], [0]), Node("T")], [1, 1, 2])]
+    for node in lk:
+        for s in ([["GO", "F"], ["GO", "N", "F"], ["GO", "F", "F"]] if tier == "quick" else
+                  [["GO", "F"], ["GO", "N", "F"], ["GO", "F", "F"], ["GO", "N", "N", "F"], ["GO", "F", "F", "F"], ["GO", "F", "N"]]):
+            qs.append(shape_script_query(16, node, s, "lookup", 1, tight=True, timeout=1500))
     info = {
         "rule": "termination = unwinding assertions: every loop of every query is unwound to a bound linear in n (_advance_parsing n+2, "
                 "lookup outer loop n/2+2, _parse_integer 9) and the solver discharges 'no further iteration'. Linear work: a counting "
-                "callback in the public cb field; tokens reported <= bytes advanced + 2 per call, from every Inv state (H-STEP) and for "
-                "whole-document verify (H-DOC).",
+                "callback in the public cb field; tokens reported <= bytes advanced + 2 per call, from every Inv state (H-STEP, reported "
+                "only as INCONCLUSIVE if it fails), along full/skip/leave/raw traversals and lookups with symbolic names on shapes "
+                "(H-SHAPE, API-only) and for whole-document verify (H-DOC).",
         "bounds": {"n": list(ns), "D": 2},
         "outside": ["buffers longer than listed", "CPU-time watchdogs (not part of this technique)"],
         "assumptions": ["lookups are issued inside an object"],
@@ -1022,6 +1036,17 @@ def plan_C17(tier):
     for n, root in ([(4, 2)] if tier == "quick" else [(4, 2), (5, 1), (6, 2)]):
         qs.append(tworun_query(3, n, 2, root, timeout=2400))
     qs.append(tworun_query(4, 4, 2, 1))
+    # print state must not leak from one parser object to another (arbitrary bytes for the unrelated parser)
+    from .shapes import Node
+    for n_a, root in ([(4, 2)] if tier == "quick" else [(4, 2), (5, 2), (6, 1)]):
+        b = [0x42, 0x43] if root == 2 else [0x40, 0x41]
+        q = print_query(17, 4, n_a, 2, root, tcap=16, extra={"SK_LEN": 2, "SK_BYTES": "%d,0" % b[0], "SK_MASK": "1,0", "SK_LAST": b[1],
+                                                                "FMT_STDOUT_MAX": 16})
+        q.name = "print-noninterference.n%d.%s" % (n_a, "obj" if root == 1 else "arr")
+        q.restrict_fp = [("_advance_parsing.function_pointer_call.%d" % i, "_binson_print_cb") for i in (1, 2, 3)]
+        q.checks = "func"
+        q.tags.update({"family": "H-2RUN", "what": "print(B); print(A on arbitrary bytes); print(B)"})
+        qs.append(q)
     # side condition read from the goto binary: no writable static-lifetime symbol in the two units
     qs.append(Query("symtab.no_writable_statics", "h_symtab.c", defines={}, sources=("parser", "writer"), with_print=True,
                     checks="func", witness=False, timeout=120, tags={"family": "SYMTAB", "kind": "side condition, not a solver verdict"},
